@@ -93,6 +93,7 @@ type obs struct {
 	called    bool
 	callLine  string
 	recovered bool
+	recCount  int // how often the recovery function was called for this request ("exactly once")
 	recVal    any
 }
 
@@ -290,6 +291,7 @@ func runScript(w http.ResponseWriter, acts []act) {
 }
 
 func (x *executor) recoverFunc(w http.ResponseWriter, msg any) {
+	x.cur.recCount++
 	x.cur.recovered = true
 	x.cur.recVal = msg
 	w.WriteHeader(500)
@@ -475,7 +477,11 @@ func (x *executor) serve(h http.Handler, req *http.Request) (out string) {
 	x.recG.Reset()
 	h.ServeHTTP(r, req)
 	if o.recovered {
-		return prefix() + "recovered:" + fmtPanicVal(o.recVal) + " " + fmtRec(r)
+		times := ""
+		if o.recCount != 1 {
+			times = "x" + strconv.Itoa(o.recCount)
+		}
+		return prefix() + "recovered:" + fmtPanicVal(o.recVal) + times + " " + fmtRec(r)
 	}
 	// bundled recovery options: the value is what they logged; WithStatusRecovery logs nothing ("?")
 	if val, times, ok := x.loggedPanic(); ok {
